@@ -287,6 +287,12 @@ class Impl:
                 for h in redeclared:
                     ns[f"h{h}"] = Hook[Any]()
                 pb = tuple(self.classes[b] for b in bases)
+                # user-defined subclasses often carry a plain mixin (no hook host) in front of or behind their hook-host bases; the mixin takes no
+                # part in hook resolution, whereever it stands in the method resolution order
+                if ci % 3 == 1:
+                    pb = (type(f"PlainMixin{ci}", (), {"note": ci}),) + pb
+                elif ci % 3 == 2:
+                    pb = pb + (type(f"PlainMixin{ci}", (), {}),)
             self.classes.append(type(f"K{ci}", pb, ns))
         self.mro = [[self.classes.index(k) for k in c.__mro__ if k in self.classes] for c in self.classes]
 
